@@ -19,8 +19,8 @@ HR2 == {<<HKern>>, <<HKern, HText>>}                       \* header rows of the
 HR3 == {<<HKern>>, <<HKern, HText>>, <<HKern, HKern>>, <<HKern, HText, HKern>>}
 
 (* ------------------------- the concrete cell alphabet ------------------- *)
-NoteC == [k |-> "note", t |-> <<52, 99>>,                                             \* 4c
-          n |-> [s0 |-> <<>>, s1 |-> <<>>, s2 |-> <<>>, s3 |-> <<>>, dur |-> << <<52>> >>, p |-> <<99>>, rest |-> FALSE, acc |-> <<>>]]
+NoteC == [k |-> "note", t |-> <<59, 52, 46, 99, 35, 76>>,                             \* ;4.c#L
+          n |-> [s0 |-> << <<59>> >>, s1 |-> <<>>, s2 |-> <<>>, s3 |-> << <<76>> >>, dur |-> << <<52>>, <<46>> >>, p |-> <<99>>, rest |-> FALSE, acc |-> <<35>>]]
 TextC == [k |-> "text", t |-> <<108, 97>>]                                            \* la
 NullC == [k |-> "null", t |-> <<DOT>>]
 NulliC == [k |-> "nulli", t |-> <<STAR>>]
@@ -98,6 +98,28 @@ Project(S) == LET all == [s \in 2..Len(stages) |-> SpinedRow(s, DefaultOpts)]
               IN SelectSeq([j \in 1..(Len(stages) - 1) |-> proj[j + 1]], LAMBDA row : ~RowDropped(row))
 AllIds == SetOf(SpineIds)
 ProjectionLaw == Closed => \A S \in SUBSET AllIds : ExportGrid([DefaultOpts EXCEPT !.allids = FALSE, !.ids = S]) = Project(S)
+\* C05 / C13 on the model: options act independently.  For a family of category selections and encodings:
+\*   rendering ALL spines under (cats, enc) and then projecting on the spines S  =  exporting with spine_ids = S
+\*   include = all / exclude = nothing is the identity; a filtered note prints a subsequence of the parts it prints unfiltered
+OptCats == { Cat, Valid(FALSE, {"CORE", "STRUCTURAL"}, {}), Valid(TRUE, {}, {"DURATION", "BARLINES"}), Valid(TRUE, {}, {"EMPTY", "SIGNATURES", "LYRICS"}),
+             Valid(FALSE, {"PITCH", "HEADER", "SPINE_OPERATION", "LYRICS"}, {}) }
+OptEncs == {"kern", "ekern", "bekern"}
+ProjectOpt(S, o) == LET all == [s \in 2..Len(stages) |-> SpinedRow(s, o)]
+                        proj == [s \in 2..Len(stages) |-> LET kept == SelectSeq(all[s], LAMBDA c : c[2] \in S) IN [i \in 1..Len(kept) |-> kept[i][1]]]
+                    IN SelectSeq([j \in 1..(Len(stages) - 1) |-> proj[j + 1]], LAMBDA row : ~RowDropped(row))
+CommuteLaw == Closed => \A cs \in OptCats : \A en \in OptEncs : \A S \in SUBSET AllIds :
+                 LET o == [DefaultOpts EXCEPT !.cats = cs, !.enc = en] IN
+                 ExportGrid([o EXCEPT !.allids = FALSE, !.ids = S]) = ProjectOpt(S, o)
+FilterIdentity == Closed => \A en \in OptEncs :
+                 ExportGrid([DefaultOpts EXCEPT !.enc = en, !.cats = Valid(TRUE, {}, {})]) = ExportGrid([DefaultOpts EXCEPT !.enc = en, !.cats = Valid(FALSE, Cat, {})])
+PartsOf(t) == LET a == SplitOn(t, MID) IN SplitOn(a[1], AT) \o Tail(a)
+RECURSIVE IsSubseq(_, _)
+IsSubseq(xs, ys) == IF xs = <<>> THEN TRUE ELSE IF ys = <<>> THEN FALSE
+                    ELSE IF Head(xs) = Head(ys) THEN IsSubseq(Tail(xs), Tail(ys)) ELSE IsSubseq(xs, Tail(ys))
+SubsequenceLaw == Closed => \A cs \in OptCats : \A s \in 2..Len(stages) : \A i \in 1..Len(stages[s]) :
+                 LET n == stages[s][i]  full == CellView(n, [DefaultOpts EXCEPT !.enc = "ekern"]).t
+                     filt == CellView(n, [DefaultOpts EXCEPT !.enc = "ekern", !.cats = cs]).t IN
+                 n.hdr # NoPtr => (filt \in Nullish \/ IsSubseq(PartsOf(filt), PartsOf(full)))
 \* C07: single-measure exports partition the data lines of the full export; ranges glue at shared barlines
 KernOnly == \A s \in 2..Len(stages) : IsHeaderStage(s) => \A i \in 1..Len(stages[s]) : stages[s][i].cell.t = HKern
 PartitionLaw == (Closed /\ KernOnly /\ M >= 1) =>
